@@ -8,7 +8,8 @@
 
     [wt p] (Core/SimDefs.v, [wfp false]): the proved fragment = every MiniFo construct, with the side
     conditions: identifiers are not reserved ([_…], [New_…]); the two branches of an [if] agree on being of
-    type unit; tuples / destructurings have 2 or 3 components; constructors are declared and the generated Go
+    type unit; tuples / destructurings have 2 or 3 components; a record literal mentions every declared field
+    exactly once (in any order); constructors are declared and the generated Go
     constructor names are pairwise distinct; [ext] names a source-level library function.
     [pap_args_pure p] ([wfp true]): moreover every argument supplied to a partial application is [pure]: a variable, a
     literal, a lambda, such a partial application, or an operator / [=] / [not] / tuple / record / field access /
@@ -113,6 +114,16 @@ Theorem C01_effects_in_source_order : forall p, pap_args_pure p ->
   exists gvs, Gevals (fc_gfuncs p) (fc_gvars p) genv (compile_list DFc k es) t gvs t' /\ Forall2 (vrel DFc (ok p) (fc_gfuncs p)) vs gvs.
 Proof. exact (effects_in_source_order_d DFc 0). Qed.
 Print Assumptions C01_effects_in_source_order.
+
+(** record literals may be written in any order: the initialisers run in the order written, the value (and so
+    [=], field access) does not depend on that order *)
+Example C01_example_record_order :
+  pap_args_pure ex_record_order /\
+  run_src 100 ex_record_order =
+  ODone ("n1" ++ nl ++ "n2" ++ nl ++ "n3" ++ nl ++ "n4" ++ nl ++ "true" ++ nl ++ "true" ++ nl ++ "true" ++ nl ++
+         "2" ++ nl ++ "1" ++ nl ++ "y" ++ nl ++ "n10" ++ nl ++ "n20" ++ nl ++ "30" ++ nl)%string /\
+  run_go 200 (compile_prog ex_record_order) = run_src 100 ex_record_order.
+Proof. split; [exact ex_record_order_pure|exact ex_record_order_runs]. Qed.
 
 (** the oracle's answer to [C01 (fragment <prog>)] is sound: a program it accepts satisfies the hypotheses *)
 Theorem C01_fragment_check_sound : forall strict n p,
